@@ -1,5 +1,364 @@
 //! Builder-made small artifacts used as mutation seeds by C02/C08/C07.
+//!
+//! Every artifact is produced by the repository's own builder for the format (never assembled
+//! by hand), is as small as the format allows (tens to a few hundred bytes; an encoding file
+//! cannot be smaller than two 1 KiB pages, a non-empty archive index not smaller than one 4 KiB
+//! block) and is deterministic. Small seeds are what make the one-deviation enumeration of
+//! C02/C08 exhaustive over all 255 substitute values at every byte position.
 
-pub fn small(_fmt: &str) -> Vec<(String, Vec<u8>)> {
-    Vec::new()
+use cascette_crypto::{ContentKey, EncodingKey};
+use cascette_formats::CascFormat;
+use std::io::Cursor;
+
+fn key(tag: u8, i: u8) -> [u8; 16] {
+    let mut k = [0u8; 16];
+    for (j, b) in k.iter_mut().enumerate() {
+        *b = tag.wrapping_mul(31).wrapping_add((j as u8).wrapping_mul(7)).wrapping_add(i.wrapping_mul(59)) | 1;
+    }
+    k[0] = 0x10u8.wrapping_mul(i + 1).wrapping_add(tag & 0x0F);
+    k
 }
+
+fn push(out: &mut Vec<(String, Vec<u8>)>, name: &str, r: Result<Vec<u8>, String>) {
+    // a builder that refuses its own small program is reported by C08's builder part, not here
+    if let Ok(b) = r {
+        out.push((format!("built:{name}"), b));
+    }
+}
+
+fn e2s<E: std::fmt::Display>(e: E) -> String {
+    e.to_string()
+}
+
+// ---------------------------------------------------------------- encoding
+
+pub fn encoding_file(n_ckeys: u8, two_especs: bool, trailing: bool) -> Result<cascette_formats::encoding::EncodingFile, String> {
+    use cascette_formats::encoding::{CKeyEntryData, EKeyEntryData, EncodingBuilder};
+    let mut b = EncodingBuilder::new().with_page_sizes(1, 1);
+    if trailing {
+        b = b.with_trailing_espec("b:{22=n,54=z,*=n}".to_string());
+    }
+    for i in 0..n_ckeys {
+        let ek = EncodingKey::from_bytes(key(0xE0, i));
+        let mut eks = vec![ek];
+        if i == 1 {
+            eks.push(EncodingKey::from_bytes(key(0xE8, i)));
+        }
+        b.add_ckey_entry(CKeyEntryData { content_key: ContentKey::from_bytes(key(0xC0, i)), file_size: 1000 + u64::from(i) * 0x1_0000_0001, encoding_keys: eks.clone() });
+        for (j, ek) in eks.iter().enumerate() {
+            let espec = if two_especs && (i + j as u8) % 2 == 1 { "n" } else { "z" };
+            b.add_ekey_entry(EKeyEntryData { encoding_key: *ek, espec: espec.to_string(), file_size: 500 + u64::from(i) });
+        }
+    }
+    b.build().map_err(e2s)
+}
+
+fn encoding(out: &mut Vec<(String, Vec<u8>)>) {
+    push(out, "encoding-1ckey-1espec", encoding_file(1, false, false).and_then(|f| f.build().map_err(e2s)));
+    push(out, "encoding-3ckeys-2especs-trailing", encoding_file(3, true, true).and_then(|f| f.build().map_err(e2s)));
+}
+
+fn encoding_blte(out: &mut Vec<(String, Vec<u8>)>) {
+    push(out, "encoding-blte-zlib-single", encoding_file(2, true, true).and_then(|f| f.build_blte().map_err(e2s)));
+    // the same table as an uncompressed two-chunk BLTE (chunk table in front)
+    push(
+        out,
+        "encoding-blte-plain-2chunks",
+        encoding_file(1, false, false).and_then(|f| f.build().map_err(e2s)).and_then(|raw| {
+            let f = cascette_formats::blte::BlteFile::compress(&raw, 1100, cascette_formats::blte::CompressionMode::None).map_err(e2s)?;
+            CascFormat::build(&f).map_err(e2s)
+        }),
+    );
+}
+
+// ---------------------------------------------------------------- archive index / group
+
+pub fn archive_index_bytes(key_size: u8, offset_bytes: u8, n: u8) -> Result<Vec<u8>, String> {
+    use cascette_formats::archive::ArchiveIndexBuilder;
+    let mut b = ArchiveIndexBuilder::with_config(key_size, offset_bytes, 4);
+    for i in 0..n {
+        let k = key(0xA0, i);
+        let off = if offset_bytes == 5 { 0x1_0000_0000u64 + u64::from(i) * 4096 } else { u64::from(i) * 4096 };
+        b.add_entry(k[..key_size as usize].to_vec(), 100 + u32::from(i), off);
+    }
+    let mut buf = Vec::new();
+    b.build(Cursor::new(&mut buf)).map_err(e2s)?;
+    Ok(buf)
+}
+
+fn archive_index(out: &mut Vec<(String, Vec<u8>)>) {
+    push(out, "archive-index-empty", archive_index_bytes(16, 4, 0));
+    push(out, "archive-index-k16-o4-3", archive_index_bytes(16, 4, 3));
+    push(out, "archive-index-k9-o5-2", archive_index_bytes(9, 5, 2));
+}
+
+pub fn archive_group_bytes(n: u8) -> Result<Vec<u8>, String> {
+    use cascette_formats::archive::{ArchiveGroupBuilder, ArchiveGroupEntry};
+    let mut b = ArchiveGroupBuilder::new();
+    for i in 0..n {
+        b.add_entry(ArchiveGroupEntry::new(key(0xB0, i).to_vec(), u16::from(i) + 1, 4096 * u32::from(i), 200 + u32::from(i)));
+    }
+    let mut buf = Vec::new();
+    b.build(Cursor::new(&mut buf)).map_err(e2s)?;
+    Ok(buf)
+}
+
+fn archive_group(out: &mut Vec<(String, Vec<u8>)>) {
+    push(out, "archive-group-3", archive_group_bytes(3));
+}
+
+// ---------------------------------------------------------------- root
+
+pub fn root_bytes(v: u8) -> Result<Vec<u8>, String> {
+    use cascette_formats::root::{ContentFlags, LocaleFlags, RootBuilder, RootVersion};
+    let ver = match v {
+        1 => RootVersion::V1,
+        2 => RootVersion::V2,
+        3 => RootVersion::V3,
+        _ => RootVersion::V4,
+    };
+    let mut b = RootBuilder::new(ver);
+    let en = LocaleFlags::new(LocaleFlags::ENUS);
+    let de = LocaleFlags::new(LocaleFlags::ENUS | LocaleFlags::DEDE);
+    let inst = ContentFlags::new(ContentFlags::INSTALL);
+    let noname = ContentFlags::new(ContentFlags::INSTALL | ContentFlags::NO_NAME_HASH);
+    b.add_file(cascette_crypto::md5::FileDataId::new(100), ContentKey::from_bytes(key(0xD0, 0)), Some("interface/icons/a.blp"), en, inst);
+    b.add_file(cascette_crypto::md5::FileDataId::new(103), ContentKey::from_bytes(key(0xD0, 1)), Some("world/maps/b.wdt"), en, inst);
+    b.add_file(cascette_crypto::md5::FileDataId::new(200), ContentKey::from_bytes(key(0xD0, 2)), Some("sound/c.ogg"), de, inst);
+    // V1 stores a name hash for every record; the unnamed block only exists from V2 on
+    let unnamed_path = if v == 1 { Some("d.txt") } else { None };
+    b.add_file(cascette_crypto::md5::FileDataId::new(300), ContentKey::from_bytes(key(0xD0, 3)), unnamed_path, LocaleFlags::new(LocaleFlags::ALL), if v == 1 { inst } else { noname });
+    b.build().map_err(e2s)
+}
+
+/// One block of `n` records without name hashes under an extended (V3) header. With 16..=99
+/// records and fewer than 10 named ones the 12-byte classic V2 header of the same manifest is
+/// indistinguishable from an extended header (known finding of C03); this seed is one deviation
+/// (the version field) away from a V2 manifest whose rebuild runs into exactly that.
+pub fn root_unnamed_bytes(n: u32) -> Result<Vec<u8>, String> {
+    use cascette_formats::root::{ContentFlags, LocaleFlags, RootBuilder, RootVersion};
+    let mut b = RootBuilder::new(RootVersion::V3);
+    for i in 0..n {
+        b.add_file(cascette_crypto::md5::FileDataId::new(1000 + 3 * i), ContentKey::from_bytes(key(0xD8, i as u8)), None, LocaleFlags::new(LocaleFlags::ENUS), ContentFlags::new(ContentFlags::INSTALL | ContentFlags::NO_NAME_HASH));
+    }
+    b.build().map_err(e2s)
+}
+
+fn root(out: &mut Vec<(String, Vec<u8>)>) {
+    for v in 1..=4u8 {
+        push(out, &format!("root-v{v}-3blocks"), root_bytes(v));
+    }
+    push(out, "root-v3-20-unnamed-records", root_unnamed_bytes(20));
+}
+
+// ---------------------------------------------------------------- install / download / size
+
+pub fn install_bytes(v2: bool) -> Result<Vec<u8>, String> {
+    use cascette_formats::install::{InstallManifest, InstallManifestBuilder, TagType};
+    let m = InstallManifestBuilder::new()
+        .add_tag("Windows".to_string(), TagType::Platform)
+        .add_tag("enUS".to_string(), TagType::Locale)
+        .add_file("a/b.exe".to_string(), ContentKey::from_bytes(key(0x10, 0)), 1024)
+        .add_file("c.dll".to_string(), ContentKey::from_bytes(key(0x10, 1)), 0x0102_0304)
+        .add_file("d".to_string(), ContentKey::from_bytes(key(0x10, 2)), 7)
+        .associate_file_with_tag(0, "Windows")
+        .map_err(e2s)?
+        .associate_file_with_tag(2, "Windows")
+        .map_err(e2s)?
+        .associate_file_with_tag(1, "enUS")
+        .map_err(e2s)?
+        .build()
+        .map_err(e2s)?;
+    if !v2 {
+        return m.build().map_err(e2s);
+    }
+    // V2 is reachable through the builder only by re-opening a V2 manifest
+    let mut m2: InstallManifest = m;
+    m2.header = cascette_formats::install::InstallHeader::new_v2(m2.header.tag_count, m2.header.entry_count, 16, 0);
+    for (i, e) in m2.entries.iter_mut().enumerate() {
+        e.file_type = Some(i as u8 + 1);
+    }
+    let reopened = InstallManifestBuilder::from_manifest(&m2).build().map_err(e2s)?;
+    reopened.build().map_err(e2s)
+}
+
+fn install(out: &mut Vec<(String, Vec<u8>)>) {
+    push(out, "install-v1-2tags-3files", install_bytes(false));
+    push(out, "install-v2-2tags-3files", install_bytes(true));
+}
+
+pub fn download_bytes(v: u8) -> Result<Vec<u8>, String> {
+    use cascette_formats::download::{DownloadManifestBuilder, TagType};
+    let mut b = DownloadManifestBuilder::new(v).map_err(e2s)?;
+    b = b.with_checksums(v != 1);
+    // V2 with three flag bytes per entry, V3 with the largest flag field (four bytes)
+    let flag_size: u8 = if v == 2 { 3 } else { 4 };
+    if v >= 2 {
+        b = b.with_flags(flag_size).map_err(e2s)?;
+    }
+    if v >= 3 {
+        b = b.with_base_priority(-2).map_err(e2s)?;
+    }
+    b = b.add_file(EncodingKey::from_bytes(key(0x20, 0)), 1024, 0).map_err(e2s)?;
+    b = b.add_file(EncodingKey::from_bytes(key(0x20, 1)), 0x01_0203_0405, -3).map_err(e2s)?;
+    b = b.add_file(EncodingKey::from_bytes(key(0x20, 2)), 9, 5).map_err(e2s)?;
+    b = b.add_tag("Windows".to_string(), TagType::Platform).add_tag("Alt".to_string(), TagType::Alternate);
+    b = b.associate_file_with_tag(0, "Windows").map_err(e2s)?;
+    b = b.associate_file_with_tag(2, "Windows").map_err(e2s)?;
+    b = b.associate_file_with_tag(1, "Alt").map_err(e2s)?;
+    if v != 1 {
+        for i in 0..3usize {
+            b = b.set_file_checksum(i, 0x1111_1111 * (i as u32 + 1)).map_err(e2s)?;
+        }
+    }
+    if v >= 2 {
+        for i in 0..3usize {
+            let fl: Vec<u8> = (0..flag_size).map(|j| 0xA0 + 0x10 * j + i as u8).collect();
+            b = b.set_file_flags(i, fl).map_err(e2s)?;
+        }
+    }
+    b.build().map_err(e2s)?.build().map_err(e2s)
+}
+
+fn download(out: &mut Vec<(String, Vec<u8>)>) {
+    for v in 1..=3u8 {
+        push(out, &format!("download-v{v}-3files-2tags"), download_bytes(v));
+    }
+}
+
+pub fn size_bytes(v: u8, n: u8) -> Result<Vec<u8>, String> {
+    use cascette_formats::install::TagType;
+    use cascette_formats::size::SizeManifestBuilder;
+    let mut b = SizeManifestBuilder::new().version(v).ekey_size(if n > 8 { 4 } else { 9 });
+    if v == 1 {
+        b = b.esize_bytes(3);
+    }
+    b = b.add_tag("Windows".to_string(), TagType::Platform).add_tag("enUS".to_string(), TagType::Locale);
+    for i in 0..n {
+        b = b.add_entry(key(0x30, i)[..if n > 8 { 4 } else { 9 }].to_vec(), 1000 + u64::from(i) * 0x0101);
+    }
+    b = b.tag_file(0, 0).tag_file(0, 2).tag_file(1, 1);
+    if n > 8 {
+        // a second mask byte
+        b = b.tag_file(0, 8).tag_file(1, 7);
+    }
+    b.build().map_err(e2s)?.build().map_err(e2s)
+}
+
+fn size(out: &mut Vec<(String, Vec<u8>)>) {
+    push(out, "size-v1-3entries-2tags", size_bytes(1, 3));
+    push(out, "size-v2-3entries-2tags", size_bytes(2, 3));
+    push(out, "size-v2-9entries-2tags", size_bytes(2, 9));
+}
+
+// ---------------------------------------------------------------- TVFS
+
+pub fn tvfs_bytes(flags: u32) -> Result<Vec<u8>, String> {
+    use cascette_formats::tvfs::{TVFS_FLAG_ENCODING_SPEC, TvfsBuilder};
+    let mut b = TvfsBuilder::with_flags(flags);
+    let est = flags & TVFS_FLAG_ENCODING_SPEC != 0;
+    if est {
+        b.add_est_spec("z".to_string());
+        b.add_est_spec("b:{*=n}".to_string());
+    }
+    let files = [("a/b.txt", 0u8), ("a/c.txt", 1), ("d", 2)];
+    for (p, i) in files {
+        let mut ek = [0u8; 9];
+        ek.copy_from_slice(&key(0x40, i)[..9]);
+        if est {
+            b.add_file_with_est(p.to_string(), ek, 100 + u32::from(i), 200 + u32::from(i), Some(key(0x48, i)), u32::from(i % 2));
+        } else {
+            b.add_file(p.to_string(), ek, 100 + u32::from(i), 200 + u32::from(i), Some(key(0x48, i)));
+        }
+    }
+    b.build().map_err(e2s)
+}
+
+fn tvfs(out: &mut Vec<(String, Vec<u8>)>) {
+    use cascette_formats::tvfs::{TVFS_FLAG_ENCODING_SPEC, TVFS_FLAG_INCLUDE_CKEY, TVFS_FLAG_PATCH_SUPPORT};
+    push(out, "tvfs-ckey-3files", tvfs_bytes(TVFS_FLAG_INCLUDE_CKEY));
+    push(out, "tvfs-ckey-est-patch-3files", tvfs_bytes(TVFS_FLAG_INCLUDE_CKEY | TVFS_FLAG_ENCODING_SPEC | TVFS_FLAG_PATCH_SUPPORT));
+    push(out, "tvfs-bare-3files", tvfs_bytes(0));
+}
+
+fn tvfs_blte(out: &mut Vec<(String, Vec<u8>)>) {
+    use cascette_formats::tvfs::{TVFS_FLAG_ENCODING_SPEC, TVFS_FLAG_INCLUDE_CKEY};
+    push(
+        out,
+        "tvfs-blte-zlib-single",
+        tvfs_bytes(TVFS_FLAG_INCLUDE_CKEY | TVFS_FLAG_ENCODING_SPEC).and_then(|raw| {
+            let f = cascette_formats::blte::BlteFile::single_chunk(raw, cascette_formats::blte::CompressionMode::ZLib).map_err(e2s)?;
+            CascFormat::build(&f).map_err(e2s)
+        }),
+    );
+}
+
+// ---------------------------------------------------------------- ZBSDIFF, patch archive, patch index
+
+fn zbsdiff(out: &mut Vec<(String, Vec<u8>)>) {
+    use cascette_formats::zbsdiff::ZbsdiffBuilder;
+    let old = b"the quick brown fox jumps over the lazy dog".to_vec();
+    let new = b"the quick brown cat jumps over the lazy dog!".to_vec();
+    push(out, "zbsdiff-simple", ZbsdiffBuilder::new(old.clone(), new.clone()).build_simple_patch().map_err(e2s));
+    push(out, "zbsdiff-chunked", ZbsdiffBuilder::new(old, new).with_max_diff_block_size(16).build_chunked_patch().map_err(e2s));
+}
+
+pub fn patch_archive_bytes(with_encoding_info: bool) -> Result<Vec<u8>, String> {
+    use cascette_formats::patch_archive::{PatchArchiveBuilder, PatchArchiveEncodingInfo};
+    let mut b = PatchArchiveBuilder::new().block_size_bits(12);
+    if with_encoding_info {
+        b = b.encoding_info(PatchArchiveEncodingInfo { encoding_ckey: key(0x50, 0), encoding_ekey: key(0x50, 1), decoded_size: 1000, encoded_size: 600, espec: "b:{*=z}".to_string() });
+    }
+    b.add_file_entry(key(0x58, 0), 0x01_0000_0001, vec![(key(0x5A, 0), 500, key(0x5C, 0), 200, 0), (key(0x5A, 1), 501, key(0x5C, 1), 201, 1)]);
+    b.add_file_entry(key(0x58, 1), 2000, vec![(key(0x5A, 2), 700, key(0x5C, 2), 300, 0)]);
+    b.build().map_err(e2s)
+}
+
+fn patch_archive(out: &mut Vec<(String, Vec<u8>)>) {
+    push(out, "patch-archive-2files", patch_archive_bytes(false));
+    push(out, "patch-archive-2files-encoding-info", patch_archive_bytes(true));
+}
+
+pub fn patch_index_bytes(key_size: u8, n: u8) -> Result<Vec<u8>, String> {
+    use cascette_formats::patch_index::{PatchIndexBuilder, PatchIndexEntry};
+    let mut b = PatchIndexBuilder::new().key_size(key_size);
+    let cut = |k: [u8; 16]| {
+        let mut o = [0u8; 16];
+        o[..key_size as usize].copy_from_slice(&k[..key_size as usize]);
+        o
+    };
+    for i in 0..n {
+        b.add_entry(PatchIndexEntry { source_ekey: cut(key(0x60, i)), source_size: 1000 + u32::from(i), target_ekey: cut(key(0x62, i)), target_size: 2000 + u32::from(i), encoded_size: 1500, suffix_offset: 1, patch_ekey: cut(key(0x64, i)) });
+    }
+    b.build().map_err(e2s)
+}
+
+fn patch_index(out: &mut Vec<(String, Vec<u8>)>) {
+    push(out, "patch-index-k16-2", patch_index_bytes(16, 2));
+    push(out, "patch-index-k9-1", patch_index_bytes(9, 1));
+}
+
+/// Small builder-made artifacts of one format: `(name, bytes)`, smallest first.
+pub fn small(fmt: &str) -> Vec<(String, Vec<u8>)> {
+    let mut out = Vec::new();
+    match fmt {
+        "encoding" => encoding(&mut out),
+        "encoding_blte" => encoding_blte(&mut out),
+        "archive_index" => archive_index(&mut out),
+        "archive_group" => archive_group(&mut out),
+        "root" => root(&mut out),
+        "install" => install(&mut out),
+        "download" => download(&mut out),
+        "size" => size(&mut out),
+        "tvfs" => tvfs(&mut out),
+        "tvfs_blte" => tvfs_blte(&mut out),
+        "zbsdiff" => zbsdiff(&mut out),
+        "patch_archive" => patch_archive(&mut out),
+        "patch_index" => patch_index(&mut out),
+        _ => {}
+    }
+    out
+}
+
+/// All format names `small` knows (used by the self-check of C08's builder part).
+pub const FORMATS: &[&str] = &["encoding", "encoding_blte", "archive_index", "archive_group", "root", "install", "download", "size", "tvfs", "tvfs_blte", "zbsdiff", "patch_archive", "patch_index"];
